@@ -128,6 +128,8 @@ func injectONFFields(rt *rapid.T, g *gen.G, n *spec.Node) {
 		injectONFFields(rt, g, k)
 	}
 	injectWireOnlyActions(rt, g, n)
+	injectWireOnlyInstrs(rt, g, n)
+	injectWireOnlyFields(rt, g, n)
 	if n.Kind != "match" || gen.Pick(rt, "onf_fields?", 3) != 0 {
 		return
 	}
@@ -155,6 +157,99 @@ func injectONFFields(rt *rapid.T, g *gen.G, n *spec.Node) {
 		if pos < len(n.Kids)-1 {
 			g.Label("onf_field_not_last")
 		}
+	}
+}
+
+// wireOnlyFields: match fields DecodeMatchField has a decoder for but the
+// library has no (or no dedicated) constructor for - a switch reports them in
+// flow-stats replies, flow-removed and packet-in like any other field. Width
+// per OpenFlow 1.3 table 11 / OVS meta-flow.h; masked only where OVS allows a
+// mask.
+var wireOnlyFields = []struct {
+	class    uint16
+	field    uint8
+	width    int
+	maskable bool
+	name     string
+}{
+	{0x8000, 29, 1, false, "OXM_OF_ICMPV6_TYPE"}, {0x8000, 30, 1, false, "OXM_OF_ICMPV6_CODE"},
+	{0x8000, 31, 16, false, "OXM_OF_IPV6_ND_TARGET"}, {0x8000, 32, 6, false, "OXM_OF_IPV6_ND_SLL"}, {0x8000, 33, 6, false, "OXM_OF_IPV6_ND_TLL"},
+	{1, 19, 16, true, "NXM_NX_IPV6_SRC"}, {1, 20, 16, true, "NXM_NX_IPV6_DST"},
+	{1, 21, 1, false, "NXM_NX_ICMPV6_TYPE"}, {1, 22, 1, false, "NXM_NX_ICMPV6_CODE"},
+	{1, 23, 16, true, "NXM_NX_ND_TARGET"}, {1, 24, 6, false, "NXM_NX_ND_SLL"}, {1, 25, 6, false, "NXM_NX_ND_TLL"},
+	{1, 27, 4, true, "NXM_NX_IPV6_LABEL"},
+	{1, 109, 16, true, "NXM_NX_TUN_IPV6_SRC"}, {1, 110, 16, true, "NXM_NX_TUN_IPV6_DST"},
+	{1, 119, 1, false, "NXM_NX_CT_NW_PROTO"}, {1, 120, 4, true, "NXM_NX_CT_NW_SRC"}, {1, 121, 4, true, "NXM_NX_CT_NW_DST"},
+	{1, 122, 16, true, "NXM_NX_CT_IPV6_SRC"}, {1, 123, 16, true, "NXM_NX_CT_IPV6_DST"},
+	{1, 124, 2, true, "NXM_NX_CT_TP_SRC"}, {1, 125, 2, true, "NXM_NX_CT_TP_DST"},
+}
+
+func injectWireOnlyFields(rt *rapid.T, g *gen.G, n *spec.Node) {
+	if n.Kind != "match" || gen.Pick(rt, "wire_fields?", 3) != 0 {
+		return
+	}
+	for i, cnt := 0, 1+gen.Pick(rt, "wire_field_count", 3); i < cnt; i++ {
+		wf := wireOnlyFields[gen.Pick(rt, "wire_field", len(wireOnlyFields))]
+		v := g.Bytes("wire_field_value", wf.width)
+		if wf.name == "NXM_NX_IPV6_LABEL" {
+			v[0], v[1] = 0, v[1]&0x0f // 20-bit label
+		}
+		f := spec.N("oxm", spec.U("class", uint64(wf.class)), spec.U("field", uint64(wf.field)), spec.U("hasmask", 0))
+		if wf.maskable && rapid.Bool().Draw(rt, "wire_field_masked") {
+			m := g.Bytes("wire_field_mask", wf.width)
+			if wf.name == "NXM_NX_IPV6_LABEL" {
+				m[0], m[1] = 0, m[1]&0x0f
+			}
+			for k := range v {
+				v[k] &= m[k] // a conforming switch sends no value bit outside the mask
+			}
+			f.Set("hasmask", 1)
+			f.With(spec.B("value", v), spec.B("mask", m))
+			g.Label("has_mask")
+		} else {
+			f.With(spec.B("value", v), spec.B("mask", nil))
+		}
+		g.Label("field=wire:" + wf.name)
+		pos := gen.Pick(rt, "wire_field_pos", len(n.Kids)+1)
+		n.Kids = append(n.Kids[:pos], append([]*spec.Node{f}, n.Kids[pos:]...)...)
+		if pos < len(n.Kids)-1 {
+			g.Label("wire_only_field_not_last")
+		}
+	}
+}
+
+// injectWireOnlyInstrs adds the two instructions the library decodes but has
+// no constructor for (clear-actions, meter) to instruction lists: flows
+// installed by other controllers or by ovs-ofctl carry them, and a flow-stats
+// reply reports them.
+func injectWireOnlyInstrs(rt *rapid.T, g *gen.G, n *spec.Node) {
+	hasInstr := false
+	for _, k := range n.Kids {
+		if strings.HasPrefix(k.Kind, "instr.") {
+			hasInstr = true
+		}
+	}
+	if !(hasInstr || n.Kind == "mprep.flow") || gen.Pick(rt, "wire_instrs?", 4) != 0 {
+		return
+	}
+	for i, cnt := 0, 1+gen.Pick(rt, "wire_instr_count", 2); i < cnt; i++ {
+		var in *spec.Node
+		if rapid.Bool().Draw(rt, "wire_instr_meter") {
+			in = spec.N("instr.meter", spec.U("meter_id", uint64(g.U32("meter_id"))))
+		} else {
+			in = spec.N("instr.clear_actions")
+		}
+		// instructions sit behind the other children (fields, match) of their parent: insert among them
+		first := len(n.Kids)
+		for j, k := range n.Kids {
+			if strings.HasPrefix(k.Kind, "instr.") {
+				first = j
+				break
+			}
+		}
+		pos := first + gen.Pick(rt, "wire_instr_pos", len(n.Kids)-first+1)
+		n.Kids = append(n.Kids[:pos], append([]*spec.Node{in}, n.Kids[pos:]...)...)
+		g.Label("wire_only_instr=" + in.Kind)
 	}
 }
 
